@@ -963,6 +963,7 @@ def main(chk):
 
     # typed cases: R's type must be confirmed by every witness
     wl, wl_idx = {}, []
+    recs.sort(key=lambda r: (r['target'] != TARGETS[0], len(r['expr']), r['expr']))      # the simplest case represents its family
     rej_jobs, rej_recs = [], []
     for r in recs:
         if r['key'].startswith('crash/'):
